@@ -103,4 +103,17 @@ PROPS = {
             "scoped: the line x word-list space is sampled; clause (3) (one pseudonym per occurrence, function of matched text) is "
             "checked for non-overlapping lists only"],
     },
+    "C12": {
+        "families": [("lay", {"quick": 2000, "thorough": 100000}, None), ("fs", {"quick": 1500, "thorough": 60000}, None)],
+        "wall": {"quick": 200, "thorough": 2400},
+        "rule": "one evaluation = one pool of 4-28 lines (benign vocabulary with tabs, indentation, trailing blanks, exotic "
+                "whitespace; sensitive items at known positions) laid out as files in two ways (other order, other file boundaries, "
+                "other split over runs/processes, CRLF and missing final newline) under a random feature subset, or (family fs) one "
+                "tree run with storage faults; distinct = distinct signature (features, both layouts' shapes, line roles); "
+                "non-trivial = the two layouts differ in order and in file boundaries, or a write fault / crash cut an output",
+        "assumptions": _COMMON_ASSUMPTIONS + [
+            "scoped: conservation is checked on the fixed benign vocabulary and on the literal context of generated sensitive lines, "
+            "not on arbitrary tokens",
+            "terminators are compared as a text-mode reader delivers them (universal newlines)"],
+    },
 }
